@@ -47,7 +47,8 @@ static int replay(const std::string& path, const std::string& tracefile)
 	Trace T(tracefile);
 	Fail F;
 	long n = 0, drift = 0;
-	json drifts = json::array();
+	json drifts = json::array(), wdrifts = json::array();
+	long wdrift = 0;
 	for(auto& c : cases)
 	{
 		std::string k = c["k"];
@@ -168,10 +169,20 @@ static int replay(const std::string& path, const std::string& tracefile)
 				w.push_back(DataPoint(x, c["w"][i++].get<double>()));
 			if(!near(Weighted_Average(w)[0], rat(c["wmean"]), sc))
 				F.add("Weighted_Average mean", {{"data", c["data"]}, {"w", c["w"]}, {"got", Weighted_Average(w)[0]}, {"exp", c["wmean"]}});
+			if(c.contains("wse2") && c["wse2"][0].get<int>() >= 0)
+			{	// model level: the squared standard error for unequal weights is the translation-invariant ratio-estimator form
+				double se = Weighted_Average(w)[1], e2 = rat(c["wse2"]);
+				if(!near(se * se, e2, sc * sc, 256))
+				{
+					wdrift++;
+					if(wdrifts.size() < 5)
+						wdrifts.push_back({{"data", c["data"]}, {"w", c["w"]}, {"got_se2", se * se}, {"model", c["wse2"]}});
+				}
+			}
 		}
 	}
 	finished();
-	json out = {{"cases", n}, {"sfail", F.n}, {"fails", F.list}, {"drift", drift}, {"drifts", drifts}};
+	json out = {{"cases", n}, {"sfail", F.n}, {"fails", F.list}, {"drift", drift}, {"drifts", drifts}, {"wdrift", wdrift}, {"wdrifts", wdrifts}};
 	std::cout << out.dump() << std::endl;
 	return 0;
 }
@@ -340,6 +351,17 @@ static int record(uint64_t seed, const std::string& tier, const std::string& out
 		std::vector<double> w2 = Weighted_Average(wsc);
 		rel("wavg-weightscale", w2[0], w0[0], sc);
 		rel("wavg-weightscale-se", w2[1], w0[1], sc);
+		// translation and scaling with unequal weights: the mean moves with the data, the squared standard error is invariant resp. scales with k^2
+		std::vector<DataPoint> wsh = wd, wsl = wd;
+		for(auto& p : wsh)
+			p.value += s;
+		for(auto& p : wsl)
+			p.value *= k;
+		std::vector<double> w3 = Weighted_Average(wsh), w4 = Weighted_Average(wsl);
+		rel("wavg-shift", w3[0], w0[0] + s, sc);
+		rel("wavg-shift-se2", w3[1] * w3[1], w0[1] * w0[1], sc * sc);
+		rel("wavg-scale", w4[0], w0[0] * k, sc * std::fabs(k));
+		rel("wavg-scale-se2", w4[1] * w4[1], w0[1] * w0[1] * k * k, sc * sc * k * k);
 	}
 	finished();
 	return 0;
